@@ -37,6 +37,47 @@ Manifold menu_object(int id) {
   return e.M.back();
 }
 
+// The structurally dangerous single faults (lengths, lost/torn arrays, indices at and beyond
+// every bound, non-finite and extreme values, scalars): small enough to run completely in
+// every quick pass. The full enumeration adds the bit flips and every truncation/tear point.
+std::vector<Fault> enumerate_smoke(const StoredMesh& s) {
+  std::vector<Fault> out;
+  const int64_t nVert = (int64_t)(s.elems(F_VP) / std::max<uint64_t>(1, s.numProp));
+  const int64_t nTriV = (int64_t)s.elems(F_TV);
+  for (int fi = 0; fi < F_COUNT; fi++) {
+    const size_t n = s.elems(fi), es = kElemSize[fi];
+    if (n == 0) {
+      out.push_back({"mix", fi, 0, 0, 0});  // an absent array replaced by another version's
+      continue;
+    }
+    std::vector<size_t> where = {0, n / 2, n - 1};
+    out.push_back({"lose", fi, 0, 0, 0});
+    out.push_back({"mix", fi, 0, 0, 0});
+    for (int64_t k : {(int64_t)n - 1, (int64_t)n - 2, (int64_t)n / 2, (int64_t)1, (int64_t)2, (int64_t)3, (int64_t)4, (int64_t)12})
+      if (k >= 0 && (size_t)k < n) out.push_back({"truncate", fi, k, 0, 0});
+    out.push_back({"truncbytes", fi, (int64_t)(n * es - 1), 0, 0});
+    for (size_t k : {(size_t)0, n / 2}) {
+      out.push_back({"tear", fi, (int64_t)k, 0, 0});
+      out.push_back({"tear", fi, (int64_t)k, 1, 0});
+    }
+    for (size_t e : where) {
+      out.push_back({"dup", fi, (int64_t)e, 0, 0});
+      for (const char* k : {"nan", "inf", "neg", "huge"}) out.push_back({k, fi, (int64_t)e, 0, 0});
+      if (es == 8 && fi != F_VP && fi != F_RT && fi != F_HT)
+        for (int64_t v : {(int64_t)0, nVert - 1, nVert, nVert + 1, nTriV, nTriV + 3, nTriV - 3, (int64_t)1 << 31, ((int64_t)1 << 32) + 1,
+                          ((int64_t)1 << 32) + nVert - 1})
+          out.push_back({"setidx", fi, (int64_t)e, v, 0});
+      if (es == 4 || es == 1)
+        for (int b : {0, 1, 7}) out.push_back({"flip", fi, (int64_t)e, b, 0});
+    }
+  }
+  for (int64_t v : {0, 1, 2, 4, 5, 6, 7, 1000}) out.push_back({"numprop", 0, v, 0, 0});
+  out.push_back({"numprop", 0, (int64_t)s.numProp - 1, 0, 0});
+  out.push_back({"numprop", 0, (int64_t)s.numProp + 1, 0, 0});
+  for (int64_t v = 0; v < 6; v++) out.push_back({"tol", 0, v, 0, 0});
+  return out;
+}
+
 std::vector<Fault> enumerate_faults(const StoredMesh& s) {
   std::vector<Fault> out;
   const int bits64[] = {0, 1, 7, 20, 31, 32, 51, 52, 55, 62, 63};
@@ -223,7 +264,7 @@ std::string job_c09(const Args& a) {
       cases.push_back(parse_faults(a.s("faults")));
       total = 1;
     } else {
-      auto all = enumerate_faults(base);
+      auto all = a.s("set", "full") == "smoke" ? enumerate_smoke(base) : enumerate_faults(base);
       total = all.size();
       size_t from = (size_t)a.u("from", 0), to = std::min<size_t>(all.size(), (size_t)a.u("to", all.size()));
       for (size_t i = from; i < to; i++) cases.push_back({all[i]});
@@ -359,16 +400,17 @@ std::string job_c09obj(const Args& a) {
 }
 
 std::string job_c09count(const Args& a) {
-  size_t n = 0, bytes = 0;
+  size_t n = 0, bytes = 0, nsmoke = 0;
   SimSetup s = sim_setup(a);
   run_simulated(s, [&]() {
     Manifold m = menu_object((int)a.i("obj", 0));
     n = enumerate_faults(SimStore::store(m.GetMeshGL64())).size();
+    nsmoke = enumerate_smoke(SimStore::store(m.GetMeshGL64())).size();
     std::stringstream ss;
     m.WriteOBJ(ss);
     bytes = ss.str().size();
   });
-  return JObj().u64("faults", n).u64("obj_bytes", bytes).i64("menu", kMenuSize).done();
+  return JObj().u64("faults", n).u64("smoke", nsmoke).u64("obj_bytes", bytes).i64("menu", kMenuSize).done();
 }
 
 }  // namespace
